@@ -73,7 +73,7 @@ Definition leaf_ok (l : ltype) (v : pval) : bool :=
 
 Definition spyne_leaf : leaf_codec := mkleaf leaf_pr leaf_rd leaf_vs leaf_vn leaf_ok.
 
-Definition cfg (soft : bool) (tns : option text) : xcfg := mkxcfg soft tns.
+Definition cfg (soft : bool) : xcfg := mkxcfg soft.
 
 (** leaf types with default Attributes, under their XSD names *)
 Definition lt_integer : ltype := mkltype (SInt class_Integer attrs_Integer) type_name_Integer.
